@@ -165,10 +165,38 @@ func monC02(hr *HistRun) string {
 }
 
 // ---- C03 post-commit volumes: state right after the transaction; pre = post - own postings; moves = running volumes; frozen afterwards
+// returnedTxMatches: the transaction a create/revert returns equals the transaction read right after it (core fields and
+// postCommitVolumes; with eff also postCommitEffectiveVolumes, which the store computes from the moves it has just inserted)
+func returnedTxMatches(tx *ledger.Transaction, s Snap, eff bool) string {
+	for _, t := range s.Txs {
+		if tx.ID == nil || t.ID != int64(*tx.ID) {
+			continue
+		}
+		var post []Posting
+		for _, p := range tx.Postings {
+			post = append(post, Posting{p.Source, p.Destination, p.Asset, p.Amount})
+		}
+		if fmt.Sprint(post) != fmt.Sprint(t.Post) || fmt.Sprint(sortKV(tx.Metadata)) != fmt.Sprint(t.Meta) || us(tx.Timestamp.Time) != t.TS || tx.Reference != t.Ref {
+			return fmt.Sprintf("tx %d as returned by the write (postings %v, metadata %v, timestamp %d, reference %q) differs from the stored one (%v, %v, %d, %q) [returned-tx]", t.ID, post, sortKV(tx.Metadata), us(tx.Timestamp.Time), tx.Reference, t.Post, t.Meta, t.TS, t.Ref)
+		}
+		if fmt.Sprint(volsOf(tx.PostCommitVolumes)) != fmt.Sprint(t.PCV) {
+			return fmt.Sprintf("tx %d: the write returned postCommitVolumes %v, the read right after it gives %v [returned-pcv]", t.ID, volsOf(tx.PostCommitVolumes), t.PCV)
+		}
+		if eff && t.HasPCEV && fmt.Sprint(volsOf(tx.PostCommitEffectiveVolumes)) != fmt.Sprint(t.PCEV) {
+			return fmt.Sprintf("tx %d: the write returned postCommitEffectiveVolumes %v, the read right after it gives %v [returned-pcev]", t.ID, volsOf(tx.PostCommitEffectiveVolumes), t.PCEV)
+		}
+		return ""
+	}
+	return fmt.Sprintf("the transaction %v returned by the write is not listed", tx.ID)
+}
+
 func monC03(hr *HistRun) string {
 	frozen := map[int64]string{}
 	return hr.snapsDo(func(i int, s Snap) string {
 		if hr.committed(i) && hr.Res[i].Tx != nil {
+			if msg := returnedTxMatches(hr.Res[i].Tx, s, false); msg != "" {
+				return msg
+			}
 			tx := hr.Res[i].Tx
 			after := hr.foldPostings(i)
 			before := hr.foldPostings(i - 1)
@@ -257,6 +285,12 @@ func monC04(hr *HistRun) string {
 		return ""
 	}
 	return hr.snapsDo(func(i int, s Snap) string {
+		// the transaction RETURNED by the write carries the effective volumes the read gives right after it
+		if hr.committed(i) && hr.Res[i].Tx != nil {
+			if msg := returnedTxMatches(hr.Res[i].Tx, s, true); msg != "" {
+				return msg
+			}
+		}
 		for _, m := range s.Moves {
 			if m.PCEV == nil {
 				return fmt.Sprintf("move of tx %d on %s/%s has no effective volumes", m.Tx, m.Acc, m.Asset)
